@@ -160,7 +160,11 @@ Proof.
   - destruct (follow _ s _ 0) as [[[s2 v] n]|] eqn:Ef; [|discriminate]. inversion Hs; subst. eapply follow_linv; eauto.
   - inversion Hs; subst. destruct H as [A [B C]]. repeat split; auto.
   - inversion Hs; subst. exact H.
-  - inversion Hs; subst. destruct H as [A [B C]]. repeat split; auto.
+  - inversion Hs; subst. unfold do_resume.
+    assert (H1 : linv (if inexc (with_m s (upd (m s) s0 r)) then rehook_exception (with_m s (upd (m s) s0 r)) s0
+                       else with_m s (upd (m s) s0 r))).
+    { destruct (inexc _); [apply rehook_exception_linv|]; apply with_m_linv, H. }
+    destruct H1 as [A [B C]]. repeat split; auto.
   - inversion Hs; subst. unfold do_catch. destruct (inexc s); [|exact H].
     apply rehook_exception_linv with (fa := fa) in H. destruct H as [A [B C]]. repeat split; auto.
   - inversion Hs; subst. apply with_m_linv, H.
